@@ -153,6 +153,15 @@ func (m *machine) define(local int) {
 	m.live[local] = true
 }
 
+func hasField(fds []fitmodel.FieldDef, num byte) bool {
+	for _, fd := range fds {
+		if fd.Num == num {
+			return true
+		}
+	}
+	return false
+}
+
 func (m *machine) data(local int, compressed bool) {
 	def := m.slots[local]
 	r := fitmodel.Rec{Local: byte(local)}
@@ -456,6 +465,62 @@ func TestC13(t *testing.T) {
 			}
 		}
 
+		// a field moves between the regular and the developer part of a
+		// definition: for every known message, its first two scalar fields
+		// defined, then the second one turned into a developer field with
+		// the same three bytes, then back - a record after each definition
+		if hx.FirstShard() {
+			nm := int64(0)
+			for _, g := range prof.MsgNums() {
+				if g == 0 {
+					continue
+				}
+				mi := prof.Table().Msgs[g]
+				var fds []fitmodel.FieldDef
+				for _, n := range prof.FieldNums(g) {
+					fi := mi.Fields[n]
+					bt := fitmodel.MustBase(fi.Base)
+					if fi.Array || bt.String || n == 253 {
+						continue
+					}
+					fds = append(fds, fitmodel.FieldDef{Num: n, Size: byte(bt.Size), Base: fi.Base})
+					if len(fds) == 2 {
+						break
+					}
+				}
+				if len(fds) < 2 {
+					continue
+				}
+				raw := func(fd ...fitmodel.FieldDef) []byte {
+					var out []byte
+					for _, f := range fd {
+						for k := 0; k < int(f.Size); k++ {
+							out = append(out, byte(0x11+k))
+						}
+					}
+					return out
+				}
+				for _, be := range []bool{false, true} {
+					full := fitmodel.Rec{IsDef: true, Local: 1, Global: g, BigEndian: be, Fields: fds}
+					split := fitmodel.Rec{IsDef: true, Local: 1, Global: g, BigEndian: be, Fields: fds[:1], HasDev: true, Dev: []fitmodel.DevFieldDef{{Num: fds[1].Num, Size: fds[1].Size, Idx: fds[1].Base}}}
+					st := &fitmodel.Stream{HeaderSize: 12, Proto: 0x20, Recs: []fitmodel.Rec{
+						{IsDef: true, Local: 0, Global: 0, Fields: []fitmodel.FieldDef{{Num: 0, Size: 1, Base: 0}}}, {Local: 0, Raw: []byte{4}},
+						full, {Local: 1, Raw: raw(fds...)},
+						split, {Local: 1, Raw: raw(fds...)},
+						full, {Local: 1, Raw: raw(fds...)},
+						split, {Local: 1, Raw: raw(fds...)},
+					}}
+					c := streamCase{FileType: 4, Stream: st, Text: st.String()}
+					nm++
+					if msg, ok := checkStream(rec, c); !ok {
+						rec.Fail("moved-field", "", msg, c)
+					}
+				}
+			}
+			rec.Eval("moved-field", nm)
+			rec.NonTrivialEnum(nm)
+		}
+
 		hx.RapidCheck(t, rec, "machine", func(rt *rapid.T, fail func(string, string, any)) {
 			d := gen.D{T: rt}
 			ft := prof.FileTypes[d.Int(0, len(prof.FileTypes)-1, "ft")]
@@ -514,7 +579,42 @@ func TestC13(t *testing.T) {
 					l := defined[d.Int(0, len(defined)-1, "which")]
 					def := *m.slots[l]
 					def.Fields = append([]fitmodel.FieldDef(nil), def.Fields...)
-					switch d.Int(0, 3, "variant") {
+					def.Dev = append([]fitmodel.DevFieldDef(nil), def.Dev...)
+					moved := false
+					switch d.Int(0, 5, "variant") {
+					case 4:
+						// the last regular field becomes a developer field
+						// with the same three bytes (number, size, base type
+						// byte as developer index): the definition's bytes
+						// differ from the old one's only in the two counts
+						if n := len(def.Fields); n > 1 {
+							fd := def.Fields[n-1]
+							def.Fields = def.Fields[:n-1]
+							def.HasDev = true
+							def.Dev = append([]fitmodel.DevFieldDef{{Num: fd.Num, Size: fd.Size, Idx: fd.Base}}, def.Dev...)
+							m.labels["redefinition-field-moved-between-regular-and-developer"]++
+							moved = true
+						}
+					case 5:
+						// the reverse: the first developer field becomes the
+						// last regular field (when its index byte is a base
+						// type its size fits)
+						if len(def.Dev) > 0 {
+							dv := def.Dev[0]
+							fits := true
+							if mi := prof.Table().Msgs[def.Global]; mi != nil && mi.Fields[dv.Num] != nil {
+								// a profile field: only with the base type
+								// and scalar size the profile gives it
+								fi := mi.Fields[dv.Num]
+								fits = fi.Base == dv.Idx && !fi.Array && !fitmodel.MustBase(fi.Base).String && int(dv.Size) == fitmodel.MustBase(fi.Base).Size
+							}
+							if bt, ok := fitmodel.Base(dv.Idx); ok && fits && bt.Size > 0 && dv.Size > 0 && int(dv.Size)%bt.Size == 0 && !hasField(def.Fields, dv.Num) {
+								def.Dev = def.Dev[1:]
+								def.Fields = append(def.Fields, fitmodel.FieldDef{Num: dv.Num, Size: dv.Size, Base: dv.Idx})
+								m.labels["redefinition-field-moved-between-regular-and-developer"]++
+								moved = true
+							}
+						}
 					case 0, 1:
 						def.BigEndian = !def.BigEndian
 						m.labels["redefinition-byte-order-only"]++
@@ -532,6 +632,9 @@ func TestC13(t *testing.T) {
 					m.s.Recs = append(m.s.Recs, def)
 					dc := def
 					m.slots[l] = &dc
+					if moved {
+						m.data(l, false)
+					}
 				},
 				"data": func(rt *rapid.T) {
 					if m.finished {
